@@ -192,13 +192,25 @@ func (p *clientStreamProcessorFMP4) processSegment(ctx context.Context, seg *seg
 			dts := leadingTimeConvFMP4(p.client).convert(int64(partTrack.BaseTime), trackProc.track.track.ClockRate)
 			ntp := leadingTimeConvFMP4(p.client).getNTP(ctx, dts, trackProc.track.track.ClockRate)
 
-			err := trackProc.push(ctx, &procEntryFMP4{
+			entry := &procEntryFMP4{
 				partTrack: partTrack,
 				dts:       dts,
 				ntp:       ntp,
-			})
-			if err != nil {
-				return err
+			}
+
+			// collect completions while pushing, otherwise a segment with more part tracks
+			// than the capacity of chPartTrackProcessed blocks both sides forever.
+			for pushed := false; !pushed; {
+				select {
+				case trackProc.queue <- entry:
+					pushed = true
+
+				case <-p.chPartTrackProcessed:
+					partTrackCount--
+
+				case <-ctx.Done():
+					return fmt.Errorf("terminated")
+				}
 			}
 
 			partTrackCount++
